@@ -62,6 +62,7 @@ pub(crate) use rust_cc_thread_local;
 
 pub(crate) mod ghost;
 pub(crate) mod probes;
+pub(crate) use ghost::{unwind_mark, unwound};
 mod lib_proofs;
 
 /// Pipeline canary: a deliberately false obligation that MUST be reported as FAILURE on every run;
